@@ -55,7 +55,10 @@ var (
 	}{
 		{"", -1, 1}, {":0", 0, 1}, {":1", 1, 1}, {":3478", 3478, 1}, {":5349", 5349, 1}, {":65535", 65535, 1},
 		{":65536", 0, 0}, {":99999", 0, 0}, {":-1", 0, 0}, {":4294967297", 0, 0}, {":x", 0, 0}, {":12a", 0, 0},
-		{":+80", 80, -1}, {":080", 80, -1}, {":", 0, -1},
+		{":+80", 80, -1}, {":", 0, -1},
+		// RFC 7064/7065: port = *DIGIT, a decimal number (leading zeros are digits; radix prefixes and separators are not)
+		{":080", 80, 1}, {":010", 10, 1}, {":03478", 3478, 1}, {":0000", 0, 1}, {":00065535", 65535, 1},
+		{":0x50", 0, 0}, {":0X1F", 0, 0}, {":0b101", 0, 0}, {":0o17", 0, 0}, {":1_000", 0, 0}, {":1e3", 0, 0}, {":٣٤٧٨", 0, 0}, {":34 78", 0, 0},
 	}
 	c17Queries = []struct { //nolint:gochecknoglobals
 		raw    string
@@ -239,11 +242,22 @@ func (f *fakeConn) allWrites() [][]byte {
 type fakeNet struct {
 	mu    sync.Mutex
 	dials []*fakeConn
+	// failNetwork: dials of this network ("udp"/"tcp") fail with failErr
+	failNetwork string
+	failErr     error
+	attempts    []string
 }
 
 func (n *fakeNet) add(f *fakeConn) { n.mu.Lock(); n.dials = append(n.dials, f); n.mu.Unlock() }
 
 func (n *fakeNet) Dial(network, address string) (net.Conn, error) {
+	n.mu.Lock()
+	n.attempts = append(n.attempts, "Dial:"+network)
+	fail := n.failNetwork == network
+	n.mu.Unlock()
+	if fail {
+		return nil, n.failErr
+	}
 	f := newFakeConn("Dial:"+network, address, &net.TCPAddr{IP: net.IPv4(192, 0, 2, 1), Port: 1})
 	n.add(f)
 
@@ -640,6 +654,52 @@ func c17(c *core.Ctx) {
 		c.Distinct(gen.HashString(fmt.Sprintf("hs%d", i)))
 	})
 	// ... and all 5 x 3 hand-made combinations
+	// a dial that fails is reported as it is: one attempt, on the transport the URI denotes, its error handed back
+	c.SectionSerial("dial-failure", 12, func(i int64, _ *gen.Rand) {
+		raw := []string{"stun:example.org", "turn:example.org", "turn:example.org?transport=tcp", "stuns:example.org", "turns:example.org?transport=tcp", "turn:192.0.2.1:9?transport=udp"}[i%6]
+		errs := []error{errors.New("network is unreachable"), &net.OpError{Op: "dial", Net: "udp", Err: errors.New("operation not permitted")}}
+		u, err := stun.ParseURI(raw)
+		if err != nil {
+			c.Violate("valid-rejected", "valid-rejected", map[string]interface{}{"input": raw})
+
+			return
+		}
+		want := "udp"
+		if u.Proto == stun.ProtoTypeTCP {
+			want = "tcp"
+		}
+		fn := &fakeNet{failNetwork: want, failErr: errs[i/6]}
+		cfg := &stun.DialConfig{Net: fn}
+		cfg.TLSConfig.InsecureSkipVerify = true //nolint:gosec
+		c.Eval(1)
+		var client *stun.Client
+		var derr error
+		p, stack := safely(func() { client, derr = stun.DialURI(u, cfg) })
+		fn.mu.Lock()
+		attempts := append([]string(nil), fn.attempts...)
+		fn.mu.Unlock()
+		detail := map[string]interface{}{"input": raw, "failing_network": want, "attempts": attempts, "err": fmt.Sprint(derr)}
+		switch {
+		case p != nil:
+			reportPanic(c, "DialURI", p, stack, detail)
+		case derr == nil || client != nil:
+			if client != nil {
+				_ = client.Close()
+			}
+			c.Violate("wrong-transport", "dial-failure-papered-over", detail)
+		case len(attempts) != 1 || attempts[0] != "Dial:"+want:
+			c.Violate("wrong-transport", "dial-failure-retried-elsewhere", detail)
+		case !errors.Is(derr, errs[i/6]) && derr.Error() != errs[i/6].Error():
+			c.Violate("wrong-transport", "dial-error-lost", detail)
+		}
+		c.Distinct(gen.HashString(fmt.Sprintf("dialfail%d", i)))
+	})
+	// no network injected (DialConfig.Net nil): the process's own network, loopback only. The transport is still the
+	// one the URI denotes: a TCP listener sees a connection for ?transport=tcp, a UDP socket sees a datagram for udp.
+	c.SectionSerial("dial-default-network", 4, func(i int64, _ *gen.Rand) {
+		c17DefaultNet(c, int(i))
+		c.Distinct(gen.HashString(fmt.Sprintf("dialdefault%d", i)))
+	})
 	c.SectionSerial("dial-handmade", 15*2, func(i int64, _ *gen.Rand) {
 		sch := stun.SchemeType(int(i) % 15 / 3)
 		pr := stun.ProtoType(int(i) % 15 % 3)
@@ -671,6 +731,75 @@ func (n *pipeNet) Dial(network, address string) (net.Conn, error) {
 }
 
 // selfSigned makes a CA-less certificate valid for the given DNS names and IPs.
+// c17DefaultNet dials turn:/stun: URIs at loopback listeners through the default network.
+func c17DefaultNet(c *core.Ctx, variant int) {
+	c.Eval(1)
+	tcpL, err := net.Listen("tcp", "127.0.0.1:0")
+	if err != nil {
+		c.Inconclusive(1) // no loopback in this environment
+
+		return
+	}
+	defer tcpL.Close()
+	port := tcpL.Addr().(*net.TCPAddr).Port //nolint:forcetypeassert
+	udpL, err := net.ListenUDP("udp", &net.UDPAddr{IP: net.IPv4(127, 0, 0, 1), Port: port})
+	if err != nil {
+		c.Inconclusive(1)
+
+		return
+	}
+	defer udpL.Close()
+	accepted := make(chan struct{}, 1)
+	go func() {
+		if cn, aerr := tcpL.Accept(); aerr == nil {
+			accepted <- struct{}{}
+			_ = cn.Close()
+		}
+	}()
+	gotUDP := make(chan struct{}, 1)
+	go func() {
+		buf := make([]byte, 1500)
+		_ = udpL.SetReadDeadline(time.Now().Add(5 * time.Second))
+		if n, _, rerr := udpL.ReadFromUDP(buf); rerr == nil && n >= 20 {
+			gotUDP <- struct{}{}
+		}
+	}()
+	raw := []string{"turn:127.0.0.1:%d?transport=tcp", "turn:127.0.0.1:%d?transport=udp", "stun:127.0.0.1:%d", "turn:127.0.0.1:%d"}[variant]
+	raw = fmt.Sprintf(raw, port)
+	u, err := stun.ParseURI(raw)
+	if err != nil {
+		c.Violate("valid-rejected", "valid-rejected", map[string]interface{}{"input": raw})
+
+		return
+	}
+	client, derr := stun.DialURI(u, &stun.DialConfig{})
+	if derr != nil {
+		c.Violate("dial-failed", "dial-failed:default-network", map[string]interface{}{"input": raw, "err": derr.Error()})
+
+		return
+	}
+	_ = client.Indicate(stun.MustBuild(stun.TransactionID, stun.NewType(stun.MethodBinding, stun.ClassIndication)))
+	wantTCP := variant == 0
+	sawTCP, sawUDP := false, false
+	select {
+	case <-accepted:
+		sawTCP = true
+	case <-gotUDP:
+		sawUDP = true
+	case <-time.After(5 * time.Second):
+	}
+	_ = client.Close()
+	switch {
+	case !sawTCP && !sawUDP:
+		c.Inconclusive(1)
+	case sawTCP != wantTCP:
+		c.Violate("wrong-transport", "wrong-transport:default-network", map[string]interface{}{"input": raw,
+			"problem": fmt.Sprintf("no network injected: the TCP listener saw a connection: %v, the UDP socket saw a datagram: %v", sawTCP, sawUDP)})
+	default:
+		c.Count("dials_through_the_default_network", 1)
+	}
+}
+
 func selfSigned(dns []string, ips []net.IP) (tls.Certificate, *x509.CertPool, error) {
 	key, err := ecdsa.GenerateKey(elliptic.P256(), crand.Reader)
 	if err != nil {
